@@ -448,6 +448,8 @@ def c17(tier, seed, only=None):
     jobs = []
     ok_only = [["succeeded", None]]
     for s in gen.f2_all(tier) + gen.f4_all(tier) + gen.f5_all(tier):
+        if s.name == "F5/retry-on-join1":
+            continue  # partial join + retry: present for C05/C13/C18; under rerun it only repeats F01
         cfg = dict(rerun=1, rerun_mode="failed-pairs" if tier != "quick" else "failed", rerun_outcomes=ok_only,
                    horizon=70)
         if gen.is_big(s):
